@@ -307,7 +307,7 @@ def run(ctx: Ctx):
                 + ("997th" if q else "61st") + " byte; 1-4 byte substitutions (0x00/0x7F/0x80/0xFF/+1/random), insertions and deletions at the field id, "
                 "length bytes, first data bytes, last byte and random interior bytes of every field; each faulted stream is loaded, its ids "
                 "listed and the zone containing the fault (plus 3 random ids) fetched and queried, every call under a 20 s alarm and 1 GiB of address-space "
-                "address-space limit; non-trivial = distinct (file, fault)")
+                "headroom; non-trivial = distinct (file, fault)")
     ctx.assumptions += ["the structure map (field boundaries, zone ids) is derived with the package's own reader on the undamaged file",
                         "hang = no return within 20 s; memory exhaustion = MemoryError with 1 GiB of address space above the worker's starting size"]
 
